@@ -37,6 +37,24 @@ CLAIMED = {
  "C11": ("bounded-exhaustive product of client-builder inputs executed through builder -> real parser -> real processor, compared with the reference document model",
          "720 configurations (5 key types x 2 hash algorithms x opaque/patches x 3 origins x 3 windows x nonce x kid) x 4 builders x 5 anchored scenarios.",
          TB, "DESIGN.md §3 C11"),
+ "C13": ("bounded-exhaustive enumeration of batch compositions round-tripped through the real OperationHandler and OperationProvider over an in-memory CAS",
+         "Every sequence of length 1..4 (thorough 5) over {create, update, recover, deactivate} x 3 DIDs (22,620 / 271,452 batches), every sequence <=3 over an alphabet with expired-marked operations and second updates, maximum-size batches for MaxOperationCount in {1,2,5,50}, and a SHA2-512 / secp256k1 variant; the read-back must be the first queued non-expired operation per suffix, JSON-equal, with embedded anchor origin, ordered create/recover/update/deactivate, with the anchor count and a complete included/deferred/expired accounting.",
+         TB, "DESIGN.md §3 C13"),
+ "C14": ("bounded-exhaustive structural / byte-level mutation and CAS-fault enumeration served to the real OperationProvider, with a success invariant and must-reject classes",
+         "Six valid file sets decoded to JSON trees; every structural mutation at every JSON path of every file (~3.4k singles, 4.6k pairs in quick, all pairs in thorough), moved entries, count skews, every truncation of every compressed file, gzip header/trailer substitutions, exact compressed/decompressed size boundaries per size parameter and factor, URI length boundary, reference presence rules, anchor string grammar, and every subset of failing CAS reads x 4 alternate-source configurations; outcome must be an error or operations satisfying the success invariant, never a panic.",
+         TB + " Coverage-guided fuzzing named in the quantifier is not used (different technique).", "DESIGN.md §3 C14"),
+ "C15": ("explicit-state enumeration of transaction / fault sequences through the real Observer, TxnProcessor and OperationProvider against a store-state model; fault-position enumeration at DocumentHandler intake",
+         "All sequences of <=3 (thorough 4) transactions over 8 kinds (2 valid batches, bad anchor, missing CAS content, count mismatch, duplicate suffix across index files, unknown namespace, unknown protocol version) x store failure position x unpublished-store failure x 2 delivery modes; plus all sequences of <=2 requests over 11 request kinds x queue / unpublished-store failure positions through a real DocumentHandler.",
+         TB, "DESIGN.md §3 C15"),
+ "C17": ("breadth-first explicit-state search over documents reachable through the real DocumentComposer, every patch list applied in every state, compared with an ordered-map reference",
+         "BFS from {} over a 29-patch alphabet to depth 3 (thorough 4): 648 (1,526) distinct documents; in every state all 870 (thorough 25,259) patch lists of length <=2 (3) are applied and checked for purity, aliasing, determinism, atomicity, fold equivalence and equality with ref/doc; round trip through PatchesFromDocument for every qualifying reachable document.",
+         TB, "DESIGN.md §3 C17"),
+ "C18": ("bounded-exhaustive rule-product enumeration through the real validator with an independent predicate; every accepted delta applied by the real composer inside crash-isolated worker subprocesses",
+         "Full product of key-entry variants (15,120), service variants (918), list-level and replace variants, every action disabled in turn, and JSON-patch operation lists over six RFC 6902 operations x 22 paths x 12 from values x 6 values (1,040 single operations; 1,156 pairs in quick, all ordered pairs in thorough); accepted => structural predicate; accepted deltas applied to 12 documents in worker subprocesses that attribute panics, fatal exits and hangs to the request in flight.",
+         TB + " One known finding (stack overflow in the third-party JSON patch engine on 'copy') is listed in known_findings.txt.", "DESIGN.md §3 C18"),
+ "C19": ("bounded-exhaustive enumeration of internal documents x resolution models x transformer options through the real transformer and DocumentHandler against an independent projection",
+         "~820 internal documents (every validator-accepted key variant, all ordered pairs of 24 variants, service variants and pairs, aliases, foreign members) x 16 option sets x published/unpublished info, and 108 (thorough 216) resolution models x 16 option sets x 5 documents; document and metadata compared with an independent projection (own base58/multibase); 7 histories through ResolveDocument.",
+         TB, "DESIGN.md §3 C19"),
  "C12": ("bounded-exhaustive pairing enumeration at intake; explicit-state search over commitment-cycle histories on the real processor vs reference",
          "Every (revealed key, next commitment) pairing x both hash algorithms (also mixed) x 5 key types for update/recover and every (update, recovery) commitment pairing for create/recover through the real parser; every forward chain of length <=4 (update and recovery chains) plus 1-2 cycle-closing operations (self loops, cycles of length 2..4) at every anchoring position, with and without the legitimate continuation.",
          TB, "DESIGN.md §3 C12"),
